@@ -166,7 +166,8 @@ impl Source {
                 Case { labels: names(*n), tts, text, fms, sorting: 0, formulas: None }
             }
             Source::Sparse(first, _) => {
-                let idx = first + k;
+                // stride 7: consecutive members differ in size, numbering direction and ring
+                let idx = first + 7 * k;
                 let l = crate::mid::sparse(idx);
                 let text = l.text(None, ("\n", "", ""));
                 Case { tts: vec![], text, fms: l.conds.clone(), sorting: ((idx / 2) % 3) as usize, labels: l.labels.clone(), formulas: Some(std::sync::Arc::new(l)) }
@@ -198,7 +199,7 @@ impl Source {
             v["ring"] = json!({"n": n, "index": first + step * k});
         }
         if let Source::Sparse(first, _) = self {
-            v["sparse"] = json!(first + k);
+            v["sparse"] = json!(first + 7 * k);
         }
         v
     }
@@ -246,9 +247,9 @@ pub fn standard_sources(run: &Run, with_formulas: bool) -> Vec<Source> {
         v.push(Source::Ring(6, run.seed % 16, 16));
         v.push(Source::Ring(7, run.seed % 512, 512));
         v.push(Source::Ring(8, run.seed % 16384, 16384));
-        v.push(Source::Sparse(run.seed * 1000, 96));
+        v.push(Source::Sparse(run.seed * 1000, 24));
     } else {
-        v.push(Source::Sparse(run.seed * 1000, 960));
+        v.push(Source::Sparse(run.seed * 1000, 480));
         v.push(Source::Tern(4, 0, 1));
         v.push(Source::Tern(5, 0, 1));
         v.push(Source::Ring(6, 0, 1));
